@@ -1076,6 +1076,40 @@ def H_pattern_cache():
     return make, check, ("_pyoda_format_info.py", "_fixed_format_info_pattern_parser.py")
 
 
+def H_pattern_cache_full(nwarm=600):
+    """the per-format-info pattern cache after MANY distinct patterns (any bound a cache may have is far below nwarm, so an
+    eviction path - if one exists - runs in both threads): two threads create two new patterns and re-read an old one"""
+    from pyoda_time._compatibility._culture_info import CultureInfo
+    from pyoda_time.globalization._pyoda_format_info import _PyodaFormatInfo
+    from pyoda_time import LocalTime
+    fr = CultureInfo("fr-FR")
+    t = LocalTime(13, 45, 7)
+    texts = ["HH':'mm' #%d'" % i for i in range(nwarm)]
+    new_a, new_b = "HH':'mm':'ss' A'", "HH':'mm':'ss' B'"
+    ref = _PyodaFormatInfo(fr)
+    exp_a = ref._local_time_pattern_parser._parse_pattern(new_a).format(t)
+    exp_b = ref._local_time_pattern_parser._parse_pattern(new_b).format(t)
+    exp_old = ref._local_time_pattern_parser._parse_pattern(texts[0]).format(t)
+
+    def make():
+        fi = _PyodaFormatInfo(fr)
+        pp = fi._local_time_pattern_parser
+        for x in texts:
+            pp._parse_pattern(x)
+        return [lambda: pp._parse_pattern(new_a).format(t),
+                lambda: (pp._parse_pattern(new_b).format(t), pp._parse_pattern(texts[0]).format(t))], {}
+
+    def check(s, c):
+        if s.status != "OK":
+            return (s.status,), "execution does not complete: %s" % s.status
+        e = _outcome_errors(s)
+        if e is not None:
+            return ("error", type(e).__name__), "thread creating a new pattern on a format info that has already cached %d patterns raised %r" % (nwarm, e)
+        ok = (s.results[0] == exp_a, s.results[1] == (exp_b, exp_old))
+        return ok, (None if all(ok) else "concurrent pattern lookups after %d cached patterns returned %r / %r" % (nwarm, s.results[0], s.results[1]))
+    return make, check, ("_fixed_format_info_pattern_parser.py", "_cache.py")
+
+
 def H_current_culture():
     from pyoda_time._compatibility._culture_info import CultureInfo
     from pyoda_time import LocalDate as LD
@@ -1294,6 +1328,7 @@ def _harness_table(tier):
         if tier != "quick":
             hs.append(("H21-generic-whole-library:%s" % g, lambda g=g: H_generic(g, True)))
     hs.append(("H9-pattern-cache", H_pattern_cache))
+    hs.append(("H9-pattern-cache-after-600", H_pattern_cache_full))
     hs.append(("H10-current-culture", H_current_culture))
     return hs
 
